@@ -734,3 +734,41 @@ Definition in_domain (pattern path base : str) : bool :=
   dom_canon_ok (if is_rel_pattern pattern then join_raw base pattern else join_raw pattern []) &&
   dom_canon_ok (if is_abs path then join_raw path [] else join_raw base path) &&
   (is_real pattern || is_nil (cstr base) || negb (is_nil (canon_pattern pattern base))).
+
+(* ------------------------------------------------------------------ *)
+(* Canonical form in windows syntax: unify separators and fold case, keep the
+   root component (drive / UNC prefix) as it is, canonicalise the rest *)
+Definition first_of (a b : str) : str := match cstr a with [] => cstr b | _ => cstr a end.
+
+Definition canon_w (a b : str) : str :=
+  let m := map wmap (join_raw a b) in
+  let k := root_len_w (first_of a b) in
+  firstn k m ++ join [SL] (canon_comps (split SL (skipn k m))).
+
+(* domain of the windows canonical-form theorem: the root component ends with a
+   separator ("c:/", "//?/", "//", "/"; not the drive-relative "c:x"), or there is
+   no root and the (non-empty) string does not begin with a ".." component *)
+Definition canon_ok_w (a b : str) : bool :=
+  let m := map wmap (join_raw a b) in
+  let k := root_len_w (first_of a b) in
+  Nat.leb k (length m) &&
+  match k with
+  | O => negb (is_nil m) && negb (is_abs m) && negb (str_eqb (hd [] (split SL m)) [DOT; DOT])
+  | S j => nth j m 0 =? SL
+  end.
+
+(* the documented rules over the windows canonical forms *)
+Definition canon_pattern_w (pattern base : str) : str :=
+  if is_rel_pattern pattern then canon_w base pattern else canon_w pattern [].
+Definition canon_path_w (path base : str) : str :=
+  if is_abs path then canon_w path [] else canon_w base path.
+Definition canon_ok_pattern_w (pattern base : str) : bool :=
+  if is_rel_pattern pattern then canon_ok_w base pattern else canon_ok_w pattern [].
+Definition canon_ok_path_w (path base : str) : bool :=
+  if is_abs path then canon_ok_w path [] else canon_ok_w base path.
+
+Definition pathmatch_w_spec_canon (pattern path base : str) (isdir : bool) : Prop :=
+  pattern <> [] /\
+  match_spec (is_real pattern) (canon_pattern_w pattern base)
+             (let T := canon_path_w path base in
+              if dir_mismatch_w pattern isdir then drop_last_comp T else T).
